@@ -145,7 +145,44 @@ def _membership(es, hyps, rounds=2):
     return extra, wits
 
 
+def _element_terms(es, sort, limit=8):
+    """ground terms of `sort` that occur as seq.unit(e) or as the index of a select on a Bool-valued array (a set membership)"""
+    out, seen = [], set()
+    todo = list(es)
+    visited = set()
+    while todo and len(out) < limit:
+        x = todo.pop()
+        if z3.is_quantifier(x):
+            continue
+        i = x.get_id()
+        if i in visited:
+            continue
+        visited.add(i)
+        if z3.is_app(x):
+            e = None
+            if x.decl().kind() == z3.Z3_OP_SEQ_UNIT:
+                e = x.arg(0)
+            elif x.decl().kind() == z3.Z3_OP_SELECT and x.sort() == z3.BoolSort():
+                e = x.arg(1)
+            if e is not None and e.sort() == sort and not _has_var(e) and e.get_id() not in seen:
+                seen.add(e.get_id())
+                out.append(e)
+            todo.extend(x.children())
+    return out
+
+
 def strengthen(hyps, goal, max_inst=200):
+    hyps = list(hyps)
+    pre = len(hyps)
+    while z3.is_implies(goal):          # A => B as goal: assume A, prove B (its quantified parts can then be instantiated)
+        a = goal.arg(0)
+        if z3.is_not(a) and z3.is_quantifier(a.arg(0)) and a.arg(0).is_forall():
+            # not (forall x. P): a counterexample exists - name it, so that hypotheses can be instantiated at it
+            q = a.arg(0)
+            vs = [z3.Const(f'sk!{q.var_name(i)}!{next(_cnt)}', q.var_sort(i)) for i in range(q.num_vars())]
+            a = z3.Not(z3.substitute_vars(q.body(), *reversed(vs)))
+        hyps.append(a)
+        goal = goal.arg(1)
     goal2, sks = _skolem(goal)
     terms = [s for s in sks if s.sort() == z3.IntSort()]
     terms += [t for t in _index_terms([goal2] + [h for h in hyps if not z3.is_quantifier(h)]) if all(not z3.eq(t, u) for u in terms)]
@@ -194,5 +231,13 @@ def strengthen(hyps, goal, max_inst=200):
                         for u in (terms + wits2)[:10]:
                             b2 = z3.substitute_vars(inner.body(), u)
                             extra.append(z3.Implies(inst.arg(0), b2) if z3.is_implies(inst) else b2)
+    # hypotheses quantified over an element (Str, Ref ...): instances at the elements whose membership / unit lists occur
+    ground = [goal2] + [h for h in hyps if not z3.is_quantifier(h)] + extra
+    for h in hyps:
+        if len(extra) >= max_inst + 160:
+            break
+        if z3.is_quantifier(h) and h.is_forall() and h.num_vars() == 1 and h.var_sort(0) != z3.IntSort():
+            for e in _element_terms(ground, h.var_sort(0)):
+                extra.append(z3.substitute_vars(h.body(), e))
     extra.extend(_nth_concat_lemmas(extra))
-    return extra, goal2
+    return hyps[pre:] + extra, goal2
